@@ -319,6 +319,34 @@ func checkWithData(c *vm.Ctx, r *vm.Rand, k *kind) {
 		sizes = []int{1, 2, 3, 4, 5, 6, 7, 8}
 	}
 	np := sizes[r.Intn(len(sizes))]
+	if r.Intn(8) == 0 {
+		// the library's own save form for direct containers: no palette, registry-wide width
+		width := 15
+		if !k.pk.Blocks {
+			width = 6
+		}
+		model := make([]int, k.length)
+		for i := range model {
+			model[i] = r.Intn(k.pk.RegistrySize)
+		}
+		data := refwire.PackLongs(model, width)
+		h := &hist{k: k, ops: []string{fmt.Sprintf("WithData(no palette, %d-bit direct ids, %d longs)", width, len(data))}}
+		c.Eval(vm.HashStr("withdata-direct", k.name, fmt.Sprint(r.Uint64())), true)
+		var ct cont
+		if c.Guard("withdata/ctor/"+k.name, h.wit, func() { ct = k.withData(data, nil) }) {
+			return
+		}
+		c.Guard("withdata/compare/"+k.name, h.wit, func() {
+			for i := range model {
+				if g := ct.Get(i); g != model[i] {
+					c.Violation(fmt.Sprintf("withdata/value/%s/direct", k.name), fmt.Sprintf("%s built from saved direct ids: Get(%d)=%d, the saved data says %d", k.name, i, g, model[i]), h.wit())
+					return
+				}
+			}
+			c.Cover("withdata." + k.name + ".direct")
+		})
+		return
+	}
 	pal := make([]int, 0, np)
 	seen := map[int]bool{}
 	for len(pal) < np {
